@@ -39,6 +39,7 @@ type SiteSpec struct {
 	Asserts []*Clause
 	Assumes []*Clause
 	Ghosts  []*GhostUpdate
+	Hints   []*Clause // integer terms offered as instantiation candidates for quantified facts (no logical content)
 }
 
 type GhostUpdate struct {
@@ -94,7 +95,7 @@ type ContractFile struct {
 	Ghosts    map[string]string
 }
 
-var kwRe = regexp.MustCompile(`^(func|props|mode|requires|ghostinit|ensures_thorough|ensures|safe|pure|modifies|preserves|assumed|lemma|nonnil|loop|invariant|unroll|decreases|site|assert|assume|ghostset|ghostdecl|spec|note|end)\b`)
+var kwRe = regexp.MustCompile(`^(func|props|mode|requires|ghostinit|ensures_thorough|ensures|safe|pure|modifies|preserves|assumed|lemma|nonnil|loop|invariant|unroll|decreases|site|assert|assume|hint|ghostset|ghostdecl|spec|note|end)\b`)
 var ghostInitRe = regexp.MustCompile(`^ghost\([A-Za-z0-9_.]+,\s*"[A-Za-z0-9_]+"\)\s*==\s*-?[0-9]+$`)
 var ghostNameRe = regexp.MustCompile(`ghost(?:at)?\((?:[^"]*)"([A-Za-z0-9_]+)"\)`)
 var labelRe = regexp.MustCompile(`^\[([A-Za-z0-9_.\-]+)\]\s*`)
@@ -320,6 +321,15 @@ func ParseContractFile(path, pkgPath string) (*ContractFile, error) {
 				curSite.Assumes = append(curSite.Assumes, c)
 				cf.Assumes++
 			}
+		case "hint":
+			if curSite == nil {
+				return nil, fmt.Errorf("%s:%d: hint outside site", path, rl.line)
+			}
+			c, err := parseExprClause(kw, rest, path, rl.line)
+			if err != nil {
+				return nil, err
+			}
+			curSite.Hints = append(curSite.Hints, c)
 		case "ghostset":
 			if curSite == nil {
 				return nil, fmt.Errorf("%s:%d: ghostset outside site", path, rl.line)
